@@ -10,10 +10,12 @@ import (
 	"fmt"
 	"io"
 	"regexp"
+	"sort"
 	"strconv"
 	"strings"
 	"testing"
 	"unicode/utf8"
+	"verif/internal/after"
 
 	"github.com/titpetric/vuego"
 	xhtml "golang.org/x/net/html"
@@ -82,18 +84,36 @@ func render(c Case) (string, error) {
 	var buf bytes.Buffer
 	ctx := context.Background()
 	d := goData(c)
+	// what failed or aborted calls leave behind must not show in the render under test: in a
+	// part of the cases such calls run first - in the process (pools) and on the very template
+	// object that is then rendered (its stack, its remembered error, its buffers)
+	var names []string
+	for n := range c.Data {
+		names = append(names, n)
+	}
+	sort.Strings(names)
+	dirty := (len(c.Source)+len(names))%3 == 0
+	if dirty {
+		after.Poison(names)
+	}
+	fail := func(t vuego.Template) vuego.Template {
+		if dirty {
+			after.FailOn(t, names)
+		}
+		return t
+	}
 	var err error
 	switch c.Entry {
 	case "string":
-		err = vuego.New().Fill(d).RenderString(ctx, &buf, c.Source)
+		err = fail(vuego.New().Fill(d)).RenderString(ctx, &buf, c.Source)
 	case "byte":
-		err = vuego.New().Fill(d).RenderByte(ctx, &buf, []byte(c.Source))
+		err = fail(vuego.New().Fill(d)).RenderByte(ctx, &buf, []byte(c.Source))
 	case "reader":
-		err = vuego.New().Fill(d).RenderReader(ctx, &buf, strings.NewReader(c.Source))
+		err = fail(vuego.New().Fill(d)).RenderReader(ctx, &buf, strings.NewReader(c.Source))
 	case "load":
-		err = vuego.NewFS(memfs.FromMap(map[string]string{"p.vuego": c.Source})).Load("p.vuego").Fill(d).Render(ctx, &buf)
+		err = fail(vuego.NewFS(memfs.FromMap(map[string]string{"p.vuego": c.Source})).Load("p.vuego").Fill(d)).Render(ctx, &buf)
 	case "file":
-		err = vuego.NewFS(memfs.FromMap(map[string]string{"p.vuego": c.Source})).Fill(d).RenderFile(ctx, &buf, "p.vuego")
+		err = fail(vuego.NewFS(memfs.FromMap(map[string]string{"p.vuego": c.Source})).Fill(d)).RenderFile(ctx, &buf, "p.vuego")
 	case "vue":
 		err = vuego.NewVue(memfs.FromMap(map[string]string{"p.vuego": c.Source})).Render(&buf, "p.vuego", d)
 	case "frag":
@@ -198,6 +218,9 @@ func check(c Case) error {
 	out, err := render(Case{Source: src, Doc: c.Doc, Entry: c.Entry, Data: c.Data})
 	if err != nil {
 		return fmt.Errorf("render failed: %v", err)
+	}
+	if m := after.Leaked(out); m != "" && !strings.Contains(src, m) {
+		return fmt.Errorf("the output shows %q: text or a value of an EARLIER, failed render (or of a failed call on the same template object) [entry %s]\n--- output:\n%s", m, c.Entry, out)
 	}
 	got, err := parse(out, c.Doc)
 	if err != nil {
